@@ -118,9 +118,27 @@ def r3(ctx):
         arg = sends[0][2][2][1]
         src, stages, sink = common.pipeline(ctx, arg)
         inner = (render(src), stages, sink)
-        ok = render(src) == "InstrumentStates::orders(self.state.instruments, filter)" and sink is None and \
+        SRC = "InstrumentStates::orders(self.state.instruments, filter)"
+        ok = render(src) == SRC and sink is None and \
             stages in ([("flat", "Orders::orders($x)"), ("filter_map", "Order::to_request_cancel($x)")],
                        [("flat", "HashMap::values($x.0)"), ("filter_map", "Order::to_request_cancel($x)")])
+        if not ok and arg[0] == "mutated" and all(c.endswith("::push") for c in arg[2]):
+            # loop form: `for orders in <filtered instruments> { for order in orders.orders() { if let Some(r) = order.to_request_cancel()
+            # { requests.push(r) } } }` - the same scope, spelt with loops
+            vs = common.elementwise_views(ctx, ctx.find(name="cancel_orders", self_adt=ENG, trait=CO))
+            outer = [v for v in vs if v["kind"] == "loop" and v["source"] == SRC]
+            inn = [v for v in vs if v["kind"] == "loop" and v["source"] in ("Orders::orders(Iterator::next(%s).as:Some.0)" % SRC,
+                                                                              "HashMap::values(Iterator::next(%s).as:Some.0.0)" % SRC)]
+            inner = [(v["source"], [(render(p[0])[:40], p[1], p[2]) for p in v["pushes"]]) for v in vs]
+            some = "Order::to_request_cancel($x)"
+            ok = len(outer) == 1 and len(inn) == 1 and [(p[0], p[1], p[2]) for p in inn[0]["pushes"]] == [
+                (arg, some + ".as:Some.0", "(" + " && ".join(sorted(["%s is Some" % some, "Iterator::next(%s) is Some" % SRC])) + ")")] and \
+                len([p for v in vs for p in v["pushes"] if p[0] == arg]) == 2   # the same push seen from the outer and the inner loop
+            # a non-cancellable order is skipped, it does not end the scan (`continue`, never `break`)
+            if ok:
+                lb = ctx.fibody(name="cancel_orders", self_adt=ENG, trait=CO)
+                nexts = [tm for bi, t, tm in lb.real_calls() if tm[1].endswith("Iterator::next")]
+                ok = len(nexts) == 2 and all(common.loop_body_always_continues(lb, nt) for nt in nexts)
         ctx.check("Engine::cancel_orders", ok,
                   "requests = to_request_cancel of every tracked order of every instrument matching the command's own filter",
                   sites=[sends[0][1]["sp"]], got=(render(arg)[:200], str(inner)[:300]), key="scope")
